@@ -456,6 +456,30 @@ func genC09(tier string, rng *RNG, w *CaseWriter) {
 			revocsp.CheckStatus(revocsp.Options{CertChain: rxs, CertChainPurpose: purpose.CodeSigning, HTTPClient: client, SigningTime: stRef})
 		}, 15*time.Second)
 	}
+	// (4a) base CRLs whose freshest-CRL extension is malformed at every depth (the fetcher walks it before any signature check)
+	for _, ext := range [][]byte{
+		{0x30, 0x09, 0x30, 0x07, 0xA0, 0x05, 0xA0, 0x03, 0x82, 0x05, 0x61},                       // truncated dNSName inside fullName
+		{0x30, 0x0d, 0x30, 0x0b, 0xA0, 0x09, 0xA0, 0x07, 0x86, 0x02, 'h', 't', 0x82, 0x05, 0x61}, // URI then truncated name
+		{0x30, 0x05, 0x30, 0x03, 0xA0, 0x01, 0xA0},                                               // truncated fullName
+		{0x30, 0x02, 0x30, 0x05}, // truncated distribution point
+		{0x30, 0x80},             // indefinite length
+		{0x04, 0x00}, {}, {0x30, 0x06, 0x30, 0x04, 0xA0, 0x02, 0xA1, 0x00},
+	} {
+		ext := ext
+		crlDER := buildCRL(crlSpec{Number: 9, Next: "+1h", Signer: "issuer", FreshestRaw: ext}, rchain.certs[1], rxs[0].SerialNumber)
+		rt := newWorldRT()
+		rt.handlers[rxs[0].OCSPServer[0]] = func(*http.Request) (*http.Response, error) { return httpBody(500, nil) }
+		rt.handlers[rxs[0].CRLDistributionPoints[0]] = func(*http.Request) (*http.Response, error) { return httpBody(200, crlDER) }
+		client := &http.Client{Transport: rt, Timeout: 3 * time.Second}
+		emit(5, "malformed-freshest-crl-extension", func() {
+			hf, _ := crlpkg.NewHTTPFetcher(client)
+			ctx, cancel := context.WithTimeout(context.Background(), 2*time.Second)
+			defer cancel()
+			hf.Fetch(ctx, rxs[0].CRLDistributionPoints[0])
+			v, _ := revocation.NewWithOptions(revocation.Options{OCSPHTTPClient: client, CRLFetcher: hf, CertChainPurpose: purpose.CodeSigning})
+			v.ValidateContext(ctx, revocation.ValidateContextOptions{CertChain: rxs})
+		}, 8*time.Second)
+	}
 	// (4b) a panic raised inside a background per-certificate check (here: by the caller-supplied transport or fetcher)
 	// must reach the caller's goroutine, where it is recoverable: it must never kill the process
 	for _, entry := range []int{0, 1} {
